@@ -178,15 +178,14 @@ def t_verify(ex):
 
 
 # -------------------------------------------------------- bounded enumeration ----
-def _simulate(attempts, n_uris, outcomes, initial, with_chksums):
+def _simulate(attempts, n_uris, outcomes, initial, with_chksums, good=b"complete file content for checksum", spawns=None):
     """run the real fetch() with a scripted external fetcher; returns (result, final_state)"""
     import tempfile
     from unittest import mock
     from pkgcore.fetch import custom, errors, fetchable
     from snakeoil import data_source
     from snakeoil.chksum import get_handlers
-    good = b"complete file content for checksum"
-    content = {ABSENT: None, PARTIAL: good[:10], EMPTY: b"", CORRUPT: good[:-1] + b"X", GOOD: good}
+    content = {ABSENT: None, PARTIAL: good[:10] if good else None, EMPTY: b"", CORRUPT: good[:-1] + b"X", GOOD: good}
     handlers = get_handlers()
     chk = {c: handlers[c](data_source.data_source(good)) for c in ("size", "sha256")} if with_chksums else {}
     with tempfile.TemporaryDirectory(dir="/var/tmp") as d:
@@ -206,6 +205,8 @@ def _simulate(attempts, n_uris, outcomes, initial, with_chksums):
         def fake_spawn(cmd, **kw):
             st, status = next(script)
             resumes.append(cmd.startswith("resume"))
+            if spawns is not None:
+                spawns.append((cmd.startswith("resume"), os.path.getsize(path) if os.path.exists(path) else None))
             put(st)
             return status
         f = custom.fetcher(distdir=d, command="fetch ${URI} ${FILE}", resume_command="resume ${URI} ${FILE}", userpriv=False, attempts=attempts)
@@ -241,8 +242,35 @@ def enum_fetch(seed):
                         fails.append({"model": {"attempts": attempts, "n_uris": n_uris, "initial": STATE_NAMES[initial],
                                                 "outcomes": [(STATE_NAMES[s], rc) for s, rc in outs[:attempts]]},
                                       "detail": f"attempts={attempts} uris={n_uris} initial={STATE_NAMES[initial]} outcomes={[(STATE_NAMES[s], rc) for s, rc in outs[:attempts]]}: {bad}"})
-    return {"name": "C36.fetcher.fetch.bounded_enumeration", "bound": "attempts 1-3, 1 or 3 URIs, 3 initial states, all outcome sequences (4 states x 2 exit codes) for the first two spawns",
-            "cases": cases, "failures": fails}
+    # 0-byte partial files, distfiles whose recorded size is 0, targets without checksums; and which command each spawn used:
+    # the resume command exactly when a file smaller than the recorded size is in place, the plain one otherwise
+    for good, with_chk in ((b"complete file content for checksum", True), (b"", True), (b"complete file content for checksum", False)):
+        sts = [ABSENT, EMPTY, CORRUPT, GOOD] + ([PARTIAL] if good else [])
+        for attempts in (1, 2, 3):
+            for initial in sts:
+                for outs in itertools.product([(s, rc) for s in sts for rc in (0, 1)], repeat=min(attempts, 2)):
+                    outs = list(outs) + [(ABSENT, 1)] * 3
+                    cases += 1
+                    spawns = []
+                    res, good_now, data = _simulate(attempts, 3, outs, initial, with_chk, good=good, spawns=spawns)
+                    verifies = good_now if with_chk else bool(data)
+                    model = {"attempts": attempts, "recorded_size": len(good) if with_chk else None, "initial": STATE_NAMES[initial], "outcomes": [(STATE_NAMES[s], rc) for s, rc in outs[:attempts]]}
+                    bad = None
+                    if res == "returned" and not verifies:
+                        bad = "returned a path whose file does not verify"
+                    elif res != "returned" and verifies:
+                        bad = f"raised {res} although a verifying file is in place"
+                    else:
+                        for n_, (is_resume, size_before) in enumerate(spawns):
+                            want_resume = with_chk and size_before is not None and size_before < len(good)
+                            if is_resume != want_resume:
+                                bad = (f"spawn #{n_ + 1} used the {'resume' if is_resume else 'plain fetch'} command with "
+                                       f"{'no file' if size_before is None else 'a file of %d bytes' % size_before} in place (recorded size {len(good) if with_chk else 'none'})")
+                                break
+                    if bad and len(fails) < 3:
+                        fails.append({"model": model, "detail": f"{model}: {bad}"})
+    return {"name": "C36.fetcher.fetch.bounded_enumeration", "bound": "attempts 1-3, 1 or 3 URIs, 3 initial states, all outcome sequences (4 states x 2 exit codes) for the first two spawns; "
+            "again with 0-byte files, with a distfile of recorded size 0 and without checksums, checking the command each spawn used", "cases": cases, "failures": fails}
 
 
 def tasks():
